@@ -174,10 +174,13 @@ class Compiler:
         self.trees = {"OrderedRingBuffer": ast.parse((repo / SOURCES[0]).read_text()),
                       "MovingWindow": ast.parse((repo / SOURCES[1]).read_text())}
         self.trees["Gap"] = self.trees["OrderedRingBuffer"]
+        C.PEERS["_buffer"] = next(c for c in self.trees["OrderedRingBuffer"].body
+                                  if isinstance(c, ast.ClassDef) and c.name == "OrderedRingBuffer")
         self.fns: dict[tuple[str, str], FnInfo] = {}
         self.order: list[FnInfo] = []
         self.aux: list[str] = []
         self.counter = 0
+        self.durations: set[str] = set()
         self.stack: list[tuple[str, str]] = []
 
     # ---------------------------------------------------------------------------------------- sources
@@ -634,6 +637,8 @@ class Compiler:
                 raise Unsupported(f"tuple assignment from `{ast.unparse(value)[:60]}`")
             name = self.fresh("pair")
             a, b = (self.fresh(x.id) for x in target.elts)  # type: ignore
+            if isinstance(value, ast.Call) and C._call_name(value) == "divmod":
+                self.durations.add(b)                        # (the remainder of timedelta divmod timedelta)
             env2.vars[target.elts[0].id] = (a, "Int")  # type: ignore
             env2.vars[target.elts[1].id] = (b, "Int")  # type: ignore
             return Let(name, text, Let(a, f"{name}.1", Let(b, f"{name}.2", nxt(env2))))
@@ -1045,6 +1050,8 @@ class Compiler:
         if isinstance(n, ast.Call) and C._call_name(n) == "isinstance" and len(n.args) == 2:
             return self.isinstance_test(n, env, neg)
         t, k = self.expr(n, env)
+        if k == "Int" and t in self.durations:               # the truth value of a timedelta: not zero
+            return ("atom", C._atom(t, "=" if neg else "≠", "(0 : Int)"))
         if k == "Bool":
             return ("atom", f"({t} = {'false' if neg else 'true'})")
         if k == "Gap":                                       # an object: always truthy
@@ -1083,9 +1090,11 @@ class Compiler:
             is_none = isinstance(op, ast.Is) != neg
             b = env.vars.get(left.id) if isinstance(left, ast.Name) else None
             if isinstance(b, Ref):
-                if b.cond is None:
-                    raise Unsupported("None test of an alias that is always present")
+                if b.cond is None:                       # an alias of an element: an object, never None
+                    return ("atom", "False" if is_none else "True")
                 return ("atom", f"(¬ {b.cond})" if is_none else f"({b.cond})")
+            if b is not None and b[1] == ("opt", None):  # the literal None
+                return ("atom", "True" if is_none else "False")
             if isinstance(left, ast.Attribute) and left.attr == "value" and isinstance(left.value, ast.Name) \
                     and self.vkind(env, left.value.id) == "Sample":
                 return ("atom", f"({env.vars[left.value.id][0]}_isNone = {'true' if is_none else 'false'})")
